@@ -137,6 +137,7 @@ pub fn spec(check: &str, tier: &str) -> Option<CheckSpec> {
             let na = progs.len();
             progs.extend(fam::race_s(tier));
             progs.extend(fam::cell_open_family());
+            progs.extend(fam::race_arc_family());
             let mut js = jobs("C04", tier, progs, &cfg);
             // the same verdicts with location capture on (Builder.location)
             let mut cl = cfg.clone();
@@ -398,13 +399,18 @@ pub fn spec(check: &str, tier: &str) -> Option<CheckSpec> {
         }
         "C17" => {
             let progs = fam::stat_programs(tier);
+            let mut js17 = jobs("C17", tier, progs, &cfg);
+            for which in 0..3u64 {
+                let program = Program { name: format!("CUSTOM-tls-teardown-{}", which), objs: Objs { atomics: vec![which, 17], ..Default::default() }, threads: vec![vec![]] };
+                js17.push(Job { id: format!("C17-custom-{}", which), check: "C17".into(), tier: tier.into(), program, cfg: cfg.clone(), extra: serde_json::json!({"mode": "custom", "which": which}) });
+            }
             Some(CheckSpec {
                 id: "C17",
                 level: "model_checking",
                 rule: "every program of the STAT family (1-3 children + main, every sequence of with / nested with / lazy get over 2 thread-local keys and 2 lazy statics, plain and loom-op-in-initialiser/destructor flavours); per iteration: history replay plus init/drop/privacy/AccessError/address counters; non-trivial = >= 2 reference outcomes or >= 3 threads",
                 assumptions: vec!["the running loom thread is identified through hook H2 inside initialisers and destructors", "whether a destructor is already visible when join returns is not part of the oracle"],
                 wall_cap: wall,
-                jobs: jobs("C17", tier, progs, &cfg),
+                jobs: js17,
                 self_checks: vec![],
                 completed_level: format!("STAT {}", tier),
                 abort_is_violation: true,
@@ -539,7 +545,8 @@ pub fn spec(check: &str, tier: &str) -> Option<CheckSpec> {
                 progs.extend(fam::asc_sentinels());
                 progs.extend(fam::lock_sentinels());
                 progs.extend(fam::a_sc_nested(1, 2));
-                level = "A-sc 2 threads x <=2 ops; nested spawn (main -> T1 -> T2); LOCK 2 threads <=6 ops; sentinels (3 threads); bounds 0..6, #ops and unbounded".to_string();
+                progs.extend(fam::yield_bases(tier));
+                level = "A-sc 2 threads x <=2 ops; nested spawn (main -> T1 -> T2); LOCK 2 threads <=6 ops; sentinels (3 threads); yield / spin / wait-loop programs (a thread that yielded and runs again, hand-over or late spawn after a yield); bounds 0..6, #ops and unbounded".to_string();
             } else {
                 progs.extend(fam::a_sc(1, 2, 3, 6, false));
                 progs.extend(fam::a_sc(2, 2, 2, 4, false));
@@ -551,7 +558,8 @@ pub fn spec(check: &str, tier: &str) -> Option<CheckSpec> {
                 progs.extend(fam::a_sc_nested(2, 2));
                 progs.extend(fam::asc_sentinels());
                 progs.extend(fam::lock_sentinels());
-                level = "A-sc 2 threads x <=3 ops, 3 threads; LOCK 2-3 threads <=8 ops; WAIT quick level; bounds 0..6 and unbounded".to_string();
+                progs.extend(fam::yield_bases(tier));
+                level = "A-sc 2 threads x <=3 ops, 3 threads; LOCK 2-3 threads <=8 ops; WAIT quick level; yield / spin / wait-loop programs; bounds 0..6 and unbounded".to_string();
             }
             Some(CheckSpec {
                 id: "C15",
@@ -583,6 +591,21 @@ pub fn spec(check: &str, tier: &str) -> Option<CheckSpec> {
                 }
                 js
             };
+            // exploration controls do not switch the leak check off: programs that leak in every
+            // schedule, with a skip_branch() / stop_exploring() somewhere
+            for b in fam::leak_family().into_iter().filter(|p| p.name.ends_with("-leaked")) {
+                for t in 0..b.threads.len() {
+                    let lo = if t == 0 { b.threads[0].iter().rposition(|o| matches!(o.k, crate::ir::K::Spawn { .. })).map(|x| x + 1).unwrap_or(0) } else { 0 };
+                    let hi = if t == 0 { b.threads[0].iter().position(|o| matches!(o.k, crate::ir::K::Join { .. })).unwrap_or(b.threads[0].len()) } else { b.threads[t].len() };
+                    for i in lo..=hi {
+                        for k in [crate::ir::K::SkipBranch, crate::ir::K::StopExploring] {
+                            let mut q = fam::insert_op(&b, t, i, k.into());
+                            q.name = format!("{}+ctl", q.name);
+                            progs.push(q);
+                        }
+                    }
+                }
+            }
             let (da, dl) = if tier == "quick" { (4, 5) } else { (7, 8) };
             progs.extend(fam::arc_seq_family(da));
             progs.extend(fam::alloc_seq_family(dl));
@@ -675,7 +698,8 @@ pub fn arc_programs(tier: &str, with_forget: bool) -> (Vec<Program>, String) {
         level = "ARC: 1 child x <=3 ops + main <=2; 2 children <=5 ops (raw ops); 3 children x 1 op; cell-in-Drop variant".to_string();
     }
     v.extend(fam::arc_reclone_family());
-    let level = level + "; ARC-reclone: count 2 -> 1 -> 2 -> 0 (remote drops, relaxed flag, the owner clones again, every release order, third thread)";
+    v.extend(fam::race_arc_family());
+    let level = level + "; ARC-reclone: count 2 -> 1 -> 2 -> 0 (remote drops, relaxed flag, the owner clones again, every release order, third thread); RACE-arc: a non-final drop does not acquire";
     (v, level)
 }
 
